@@ -265,7 +265,7 @@ def evalPlan (E : Env V) (c : Read.Ctx) (p : Plan V) (es : List (Entry V)) : Lis
     let g := Grid.of c.fromNs c.toNs dur
     let a := match k with
       | .range fn => if rangeCounts fn then aggregate (·.labels) g (rangeValue E.num dur fn) s else []
-      | .unwrap fn => if unwrapCounts fn then aggregate (·.labels) g (unwrapValue E.num dur fn) (optByWithout E p.aggBy s) else []
+      | .unwrap fn => if unwrapCounts fn then aggregate (·.labels) g (unwrapValue E.num dur (dirFn c.orderAsc fn)) (optByWithout E p.aggBy s) else []
     let a := optCompare E.num p.aggCmp a
     match p.vec with
     | none => a
